@@ -213,6 +213,31 @@ fn nt_c17(s: &Stats) -> bool {
     s.get("Query") >= 3 && s.get("Withdraw.ok") >= 1 && s.get("Submit.ok") >= 2 && s.flags.contains("repeated_unstake")
 }
 
+pub fn p_c12() -> Profile {
+    let mut p = Profile::base("C12");
+    p.len = (15, 60);
+    p.w_owner = 30;
+    p.w_advance = 18;
+    p.w_resume = 6;
+    p.w_breaker = 3;
+    p.w_config = 6;
+    p.w_validator = 2;
+    p.w_feewd = 3;
+    p.w_stake = 6;
+    p.w_unstake = 3;
+    p.w_submit = 2;
+    p.w_withdraw = 2;
+    p.w_deliver = 2;
+    p.w_rewards = 3;
+    p.w_resolve = 3;
+    p.w_recover = 2;
+    p.w_stray = 0;
+    p
+}
+pub fn nt_c12(s: &Stats) -> bool {
+    s.flags.contains("accept_at_boundary") && (s.flags.contains("renominated") || s.flags.contains("revoked") || s.flags.contains("handover_done")) && (s.get("Resume.ok") + s.get("Config.ok") + s.get("Breaker.ok") > 0)
+}
+
 pub struct HistSpec {
     pub prop: &'static str,
     pub profile: Profile,
